@@ -84,6 +84,11 @@ pub fn mixed_case(seed: u64, idx: u64, uni: &UniCfg, check: &str) -> Case {
             c
         }
     };
+    // sometimes descriptor 0 is free when the operations start: the first descriptor the kernel
+    // hands to the library is then 0 (a perfectly valid descriptor)
+    if matches!(kind, "lookups" | "mutations" | "single-entry" | "reopen" | "procfs") && rng.chance(1, 8) && c.jobs.len() == 1 {
+        c.jobs[0].insert(0, OpSpec::new(Op::Sup { muts: vec![crate::world::Mutation::CloseFd { fd: 0 }] }));
+    }
     c.check = check.to_string();
     c.extra = serde_json::json!({"kind": kind, "inner": c.extra});
     c
